@@ -38,10 +38,31 @@ class QuantMixin:
         self.q_seqs: Dict[int, Any] = {}
         self.seq_elem_type: Dict[int, str] = {}
 
-    def _seq_key(self, s) -> int:
+    def norm_seq(self, s):
+        """canonical form of a sequence term: H_seq[...][r(t)] with t canonicalised (havoc constants replaced by
+        the terms they were assumed equal to) and stores at fresh ids stripped for pre-existing owners"""
         s = smt.simp(s)
-        self.q_seqs[s.get_id()] = s
-        return s.get_id()
+        if z3.is_app(s) and s.decl().kind() == z3.Z3_OP_SELECT and s.num_args() == 2:
+            arr, idx = s.arg(0), s.arg(1)
+            if z3.is_app(idx) and idx.decl().name() == 'r' and idx.num_args() == 1:
+                t = idx.arg(0)
+                t2 = self.canon(t)
+                if self.is_old(t2) or self.is_old(t):
+                    arr = self.strip_fresh(arr)
+                s = smt.simp(z3.Select(arr, Val.r(t2)))
+        return s
+
+    def _seq_key(self, s) -> int:
+        s = self.norm_seq(s)
+        k = s.get_id()
+        if k not in self.q_seqs:
+            self.q_seqs[k] = s
+            # sequences registered earlier under a form that has since become canonicalisable
+            for k0, s0 in list(self.q_seqs.items()):
+                if k0 != k and self.norm_seq(s0).get_id() == k:
+                    self.q_alias.setdefault(k0, []).append(k)
+                    self.q_alias.setdefault(k, []).append(k0)
+        return k
 
     def _closure(self, key: int) -> List[int]:
         seen, todo = [], [key]
